@@ -8,6 +8,8 @@ import (
 	"os"
 	"os/exec"
 	"path/filepath"
+	"regexp"
+	"strconv"
 	"strings"
 	"time"
 
@@ -48,8 +50,8 @@ func run(c *mon.Case) {
 		ptySession(c)
 		return
 	}
-	if c.Idx == nPty(c.Tier) {
-		topOfMemory(c)
+	if k := c.Idx - nPty(c.Tier); k >= 0 && k < 2 {
+		topOfMemory(c, []int{0, 6}[k]) // store first / load first
 		return
 	}
 	inProcess(c)
@@ -120,7 +122,11 @@ func inProcess(c *mon.Case) {
 		// occasional scripted answers to value prompts
 		var answers []string
 		if r.Intn(4) == 0 {
-			answers = []string{[]string{"5", "0x10", "255", "abc", "", "0b11", "1_0", "7"}[r.Intn(8)]}
+			answers = []string{[]string{"5", "0x10", "255", "abc", "", "0b11", "1_0", "7",
+				// values on and around the moduli of the prompt widths, negative and huge
+				"-256", "-512", "-65536", "-4294967296", "-8589934592", "-18446744073709551616", "-0x30000000000000000",
+				"-0x1000000", "-1", "-128", "-0", "256", "18446744073709551616", "18446744073709551615", "-9223372036854775808",
+				"0xffffffffffffffffffffffffffffffffff", "-0b1" + strings.Repeat("0", 64), "0o7", "-08", "--1", "0x", "-"}[r.Intn(30)]}
 		}
 		res = s.Exec(line, answers...)
 		c.Eval(1)
@@ -129,7 +135,14 @@ func inProcess(c *mon.Case) {
 				c.Fail("C22.runaway-input", map[string]string{"mode": modeClass(mode)}, "the command %q keeps reading input lines forever\n%s", line, desc())
 				return
 			}
-			c.Fail("C22.command.panic", map[string]string{"site": mon.PanicSite(res.Stack), "mode": modeClass(mode)}, "the line %q crashed the UI: %v\n%s\n%s", line, res.PanicVal, desc(), res.Stack)
+			feat := map[string]string{"site": mon.PanicSite(res.Stack), "mode": modeClass(mode)}
+			if topOfMemoryPanic(feat["site"], fmt.Sprint(res.PanicVal)) {
+				// the recorded limitation of memory.Sparse (access touching 2^64-1 or
+				// wrapping around) reached by a random session, e.g. through a register
+				// answered with -1: same features as the fixed top-of-memory sessions
+				feat = map[string]string{"workload": "top-of-memory", "site": feat["site"]}
+			}
+			c.Fail("C22.command.panic", feat, "the line %q crashed the UI: %v\n%s\n%s", line, res.PanicVal, desc(), res.Stack)
 			return
 		}
 		if must {
@@ -211,9 +224,9 @@ func minInt(a, b int) int {
 
 // topOfMemory replays the recorded limitation of the sparse memory (C03 finding)
 // through the UI: emulating a store to the last byte of the address space.
-func topOfMemory(c *mon.Case) {
+func topOfMemory(c *mon.Case, which int) {
 	uichk.Init()
-	prog := emuchk.TopProgram(0)
+	prog := emuchk.TopProgram(which)
 	dcode, img, err := uichk.BuildCode(prog, emuchk.Code)
 	if err != nil {
 		c.Fail("C22.harness", nil, "top-of-memory program rejected: %v", err)
@@ -234,6 +247,25 @@ func topOfMemory(c *mon.Case) {
 		}
 	}
 	c.Count("top_of_memory_session_survived", 1)
+}
+
+var wrapRe = regexp.MustCompile(`^low cannot be greater than high: ([0-9]+) > ([0-9]+)$`)
+
+// topOfMemoryPanic recognises the known limitation by call site and evidence: the
+// interval tree of memory.Sparse refuses a range [low, high) whose end wrapped around
+// 2^64 (high = low + width mod 2^64 < low), i.e. an access touching the last byte of the
+// address space or wrapping around it.
+func topOfMemoryPanic(site, msg string) bool {
+	if site != "mltwist/internal/state/memory.(*Sparse).Store" && site != "mltwist/internal/state/memory.(*Sparse).Missing" {
+		return false
+	}
+	m := wrapRe.FindStringSubmatch(msg)
+	if m == nil {
+		return false
+	}
+	lo, err1 := strconv.ParseUint(m[1], 10, 64)
+	hi, err2 := strconv.ParseUint(m[2], 10, 64)
+	return err1 == nil && err2 == nil && lo > hi && lo >= 1<<64-256 && hi < 256
 }
 
 func modeClass(n string) string {
@@ -328,8 +360,8 @@ func ptySession(c *mon.Case) {
 
 func main() {
 	mon.Main(mon.Spec{
-		Prop: "C22",
-		Rule: "case = session of 40 input lines on a UI over a generated program: grammar-aware lines (every command key of every mode, in-range/boundary/negative/huge/non-numeric arguments, too few/many arguments, runs of spaces and tabs, whitespace-only and empty lines, unknown commands, regex metacharacters, very long tokens, random printable and UTF-8 text), steered now and then into the emulator and memory-view modes, the screen rendered at a random height before every command; the first 64 (thorough 3000) cases instead run 25 such lines against the production binary under a pty; non-trivial = in-process session that visited >=2 modes and contained >=5 lines that cannot be commands, or a completed pty session; distinct by line sequence",
+		Prop:        "C22",
+		Rule:        "case = session of 40 input lines on a UI over a generated program: grammar-aware lines (every command key of every mode, in-range/boundary/negative/huge/non-numeric arguments, too few/many arguments, runs of spaces and tabs, whitespace-only and empty lines, unknown commands, regex metacharacters, very long tokens, random printable and UTF-8 text), steered now and then into the emulator and memory-view modes, the screen rendered at a random height before every command; the first 64 (thorough 3000) cases instead run 25 such lines against the production binary under a pty; non-trivial = in-process session that visited >=2 modes and contained >=5 lines that cannot be commands, or a completed pty session; distinct by line sequence",
 		Explanation: "oracle (in-process, through the real processCommand with a line feeder that hands out exactly one line per read and then an endless supply of '0'): no panic; a line that by my own grammar cannot be a command of the current mode (unknown key, too few arguments, unparsable or negative number) must be answered with 'error:' text; no command may end the UI except quit. Oracle (pty): the production binary must not die by signal or Go crash and exits 0 or with a 'mltwist:' message; hung sessions are counted, not judged",
 		Assumptions: []string{"UI driven through verif hooks in tier A; tier B covers Run/view.Print/main on the binary built with the guard off", "value prompts are answered with small numbers so that the recorded top-of-memory finding of C03 is not re-triggered"},
 		Cases: func(t string) int {
